@@ -138,6 +138,7 @@ class Config:
     max_paths: int = 20000
     no_inline: set = field(default_factory=set)  # repo functions treated as opaque effects
     record_calls: set = field(default_factory=set)  # repo functions inlined *and* recorded as effects
+    dyn_stubs: List[Callable] = field(default_factory=list)  # name -> stub or None (for families of callee names)
     trace_enabled: Optional[bool] = False  # value of _logging.isEnabledForTrace(); None = unknown
     assume_hasattr: bool = True
 
@@ -1148,8 +1149,8 @@ class Interp:
                     if name == "args":
                         return c.fields.get("args", Tup(()))
                     return App("attr", (base, C(name)))
-                # plain record: unknown field stays symbolic
-                return App("attr", (Sym(c.label or f"rec{base.addr}"), C(name)))
+                # plain record: unknown field / method stays symbolic, receiver kept
+                return App("attr", (base, C(name)))
             return self.tf.container_method(self, run, base, name, node)
         if isinstance(base, Cls):
             v = self.class_lookup(run, base.qualname, name)
